@@ -102,7 +102,7 @@ end
 /-- `Load` with one cached head is `loadHead` on it -/
 theorem load_single {acl : Acl} {s : Store} {fetch : Nat → OMap} {n : Int} {mh : Option Int} {hd : Nat}
     {L' : Log} (hl : s.localHeads = some [hd]) (hr : s.remoteHeads = none)
-    (h : loadHead acl fetch (loadAmount n mh) s.log hd = .ok L') :
+    (h : loadHead acl (goodFetch acl s.log.id fetch) (loadAmount n mh) s.log hd = .ok L') :
     ∃ s', Store.load acl s fetch n mh = .ok s' ∧ s'.log = L' := by
   unfold Store.load
   simp only [hl, hr, Option.getD_some, Option.getD_none, List.append_nil]
@@ -127,12 +127,23 @@ theorem load_single_head_chain {id : Nat} {c : List Entry} (hc : IsChain id c) (
   have hU := hc.hashDet
   have hT := hc.tieFree
   have hM := hc.clockMono
-  have hsubc : ∀ e ∈ fetch hd, e ∈ c := fun e he => List.mem_of_mem_drop ((hf e).mp he)
-  have hF : Fetched c (Log.empty id) (fetch hd) := ⟨hsubc, fun e he => hc.lid e (hsubc e he)⟩
+  -- every entry of the chain was written for this log and is acceptable: the filters of `Load` keep all of them
+  have hf0 := hf
+  have hf : ∀ e, e ∈ goodFetch acl id fetch hd ↔ e ∈ c.drop j := by
+    intro e
+    unfold goodFetch ownFetch
+    rw [List.mem_filter, List.mem_filter, hf0 e]
+    constructor
+    · exact fun h => h.1.1
+    · intro h
+      exact ⟨⟨h, by simpa using hc.lid e (List.mem_of_mem_drop h)⟩, hacc e (List.mem_of_mem_drop h)⟩
+  have hsubc : ∀ e ∈ goodFetch acl id fetch hd, e ∈ c := fun e he => List.mem_of_mem_drop ((hf e).mp he)
+  have hF : Fetched c (Log.empty id) (goodFetch acl id fetch hd) := ⟨hsubc, fun e he => hc.lid e (hsubc e he)⟩
   obtain ⟨L1, hI1, hnd1, hent, L', hload, _, hv⟩ :=
-    loadHead_fresh hU hT hM acl fetch (loadAmount n none) id hd hF
+    loadHead_fresh hU hT hM acl (goodFetch acl id fetch) (loadAmount n none) id hd hF
       (fun e he => hacc e (hsubc e he))
-  obtain ⟨s', hs', hlog'⟩ := load_single (mh := none) hl hr (hlog ▸ hload)
+  have hsid : s.log.id = id := by rw [hlog]; rfl
+  obtain ⟨s', hs', hlog'⟩ := load_single (mh := none) (fetch := fetch) hl hr (by rw [hsid, hlog]; exact hload)
   refine ⟨s', hs', ?_⟩
   rw [hlog', hv]
   -- the merged log lists the fetched suffix of the chain
